@@ -330,7 +330,9 @@ func wideTok(r *core.Rand, n int, alsoAllowed string) string {
 	}
 	if r.Chance(1, 6) {
 		// control bytes other than the four white-space bytes of the grammar are token bytes too
+		// (never last: at the end of a control field such a byte is white space to the deb822 layer)
 		alpha = append(alpha, 0x0b, 0x0c, 0x1f, 0x7f, 0x01, 0x08)
+		return r.Str("abcxyz0123456789", 1) + r.Str(string(alpha), n) + r.Str("abcxyz0123456789", 1)
 	}
 	return r.Str("abcxyz0123456789", 1) + r.Str(string(alpha), n)
 }
@@ -888,6 +890,28 @@ func init() {
 				return fmt.Sprintf("FAIL %v asked about %v answers %v after earlier questions, %v when asked first", *mk(), fresh, got, want)
 			}
 		}
+		// the list is the caller's data: after an entry is overwritten in place (same slice, same
+		// length) or the negation flipped, the same question is answered for the list as it is now
+		if n > 0 && len(a) >= 2+3*n+3 {
+			q := argArch(a[2+3*n : 5+3*n])
+			set.Matches(&q)
+			for i := 0; i < n; i++ {
+				old := set.Architectures[i]
+				for _, repl := range []dependency.Arch{q, {ABI: "gnu", OS: "linux", CPU: "other"}, {ABI: "any", OS: "any", CPU: "any"}} {
+					set.Architectures[i] = repl
+					fresh := &dependency.ArchSet{Not: set.Not, Architectures: append([]dependency.Arch{}, set.Architectures...)}
+					if got, want := set.Matches(&q), fresh.Matches(&q); got != want {
+						return fmt.Sprintf("FAIL after entry %d was replaced by %v in place, Matches(%v) still answers %v (a fresh list with the same entries: %v)", i, repl, q, got, want)
+					}
+				}
+				set.Architectures[i] = old
+			}
+			set.Not = !set.Not
+			fresh := &dependency.ArchSet{Not: set.Not, Architectures: append([]dependency.Arch{}, set.Architectures...)}
+			if got, want := set.Matches(&q), fresh.Matches(&q); got != want {
+				return fmt.Sprintf("FAIL after the negation was flipped in place, Matches(%v) answers %v, a fresh list %v", q, got, want)
+			}
+		}
 		return "ok"
 	}
 	depImpl["law-possreuse"] = func(a []string) string {
@@ -907,6 +931,34 @@ func init() {
 			got, want := dumpPossList(d.GetPossibilities(x)), dumpPossList(e.GetPossibilities(*y))
 			if got != want {
 				return fmt.Sprintf("FAIL GetPossibilities(%v) on a field queried before gives %s, on a fresh parse %s", *y, got, want)
+			}
+			// the parsed field is the caller's data: retarget the first architecture list in place
+			// (every entry becomes the queried architecture) and ask again
+			for i := range d.Relations {
+				for j := range d.Relations[i].Possibilities {
+					if as := d.Relations[i].Possibilities[j].Architectures; as != nil && len(as.Architectures) > 0 {
+						for k := range as.Architectures {
+							as.Architectures[k] = x
+						}
+						f := &dependency.Dependency{}
+						for _, rel := range d.Relations {
+							nr := dependency.Relation{}
+							for _, p := range rel.Possibilities {
+								if p.Architectures != nil {
+									c := *p.Architectures
+									c.Architectures = append([]dependency.Arch{}, c.Architectures...)
+									p.Architectures = &c
+								}
+								nr.Possibilities = append(nr.Possibilities, p)
+							}
+							f.Relations = append(f.Relations, nr)
+						}
+						if got, want := dumpPossList(d.GetPossibilities(x)), dumpPossList(f.GetPossibilities(x)); got != want {
+							return fmt.Sprintf("FAIL after an architecture list was retargeted in place, GetPossibilities(%v) gives %s, a copy with the same content %s", x, got, want)
+						}
+						return "ok"
+					}
+				}
 			}
 		}
 		return "ok"
